@@ -11,6 +11,13 @@ issues environment events in a fixed order:
     X      the caller cancels its context
     W      wait until the call has returned
     C      the caller closes the reader it was given
+    P      R0 and R1 issued from two goroutines at the same moment
+    PX0    R0 and X at the same moment;  PX1: R1 and X at the same moment
+           (a trailing `r` — Pr, PX0r, PX1r — only swaps the order in which the harness starts
+           its two goroutines: the same event for the model)
+
+Two simultaneous events are two events in either order with any number of steps of
+the code between them: the set of states after `P` is the union over both orders.
 
 A stubborn member (`stub = 1`) also returns, gate or no gate, once its context
 is cancelled. Between two events any number of steps of the code may happen. The
@@ -69,6 +76,19 @@ def event (sc : Scn) (xs : List X) : String → List X × Bool
       | [] => x, false)
   | _ => (xs, false)
 
+/-- Two events issued at the same moment: either order, steps of the code in between. -/
+def simul (sc : Scn) (xs : List X) (a b : String) : List X × Bool :=
+  let ab := event sc (event sc xs a).1 b
+  let ba := event sc (event sc xs b).1 a
+  (ab.1 ++ ba.1, false)
+
+/-- `event`, plus the simultaneous events. -/
+def eventP (sc : Scn) (xs : List X) : String → List X × Bool
+  | "P" | "Pr" => simul sc xs "R0" "R1"
+  | "PX0" | "PX0r" => simul sc xs "R0" "X"
+  | "PX1" | "PX1r" => simul sc xs "R1" "X"
+  | ev => event sc xs ev
+
 def b01 (b : Bool) : String := if b then "1" else "0"
 
 def showObs (cfg : Cfg) (s : St) : String :=
@@ -85,7 +105,7 @@ def insertStr (x : String) : List String → List String
 
 def allowed (sc : Scn) (events : List String) : String :=
   let (xs, hang) := (events ++ ["W", "C"]).foldl (fun (acc : List X × Bool) ev =>
-    let (xs', h) := event sc acc.1 ev
+    let (xs', h) := eventP sc acc.1 ev
     (xs', acc.2 || h)) ([⟨init, false, false⟩], false)
   let final := (closure sc xs).filter fun x => (sys sc x).isEmpty
   let obs := (final.map fun x => showObs sc.cfg x.s).foldr insertStr []
